@@ -676,12 +676,17 @@ type modLoc struct {
 	elem   types.Type
 	stream string // reader ref
 	all    bool
+	streamId string // streamid(r): identity (sid) and length (lim) of the stream behind reader r (bufio.Reader.Reset)
+	streams bool   // "streams": position/peeked/fault of every reader (a function that resets or creates pooled readers)
 	foreign string // "foreign": every component that does not belong to this package (types/unexported variables of the package are encapsulated)
 }
 
 func (c *Ctx) resolveMod(env *CEnv, m Clause) modLoc {
 	if m.Text == "*" {
 		return modLoc{all: true}
+	}
+	if m.Text == "streams" {
+		return modLoc{streams: true}
 	}
 	if m.Text == "foreign" {
 		if env.pkg == nil {
@@ -704,7 +709,9 @@ func (c *Ctx) resolveMod(env *CEnv, m Clause) modLoc {
 				}
 				return modLoc{memId: s.Arr, elem: s.Elem}
 			case "stream":
-				return modLoc{stream: refOf(c.evalExpr(env, e.Args[0]))}
+				return modLoc{stream: c.streamRef(env, c.evalExpr(env, e.Args[0]))}
+			case "streamid":
+				return modLoc{streamId: c.streamRef(env, c.evalExpr(env, e.Args[0]))}
 			}
 		}
 	case *ast.SelectorExpr:
@@ -778,6 +785,9 @@ func (c *Ctx) resolveMod(env *CEnv, m Clause) modLoc {
 
 var streamGhosts = []struct{ name, sort string }{{"pos", BV64}, {"peeked", BV64}, {"fault", "Bool"}}
 
+// identity of the stream behind a reader: changed only by re-targeting the reader (Reset)
+var streamIdGhosts = []struct{ name, sort string }{{"sid", "Int"}, {"lim", BV64}}
+
 // leafKeys enumerates the heap leaf keys (and array-field memory ids) below a key prefix of type t.
 func (c *Ctx) leafKeys(pfx string, t types.Type, f func(key, sort string), arr func(key string, at *types.Array)) {
 	if srt, ok := scalarSort(t); ok {
@@ -830,6 +840,19 @@ func (c *Ctx) havocLoc(st *State, l modLoc, reach string) {
 		c.havocAll(st, reach)
 	case l.foreign != "":
 		c.havocForeign(st, l.foreign, reach)
+	case l.streams:
+		for _, g := range append(append([]struct{ name, sort string }{}, streamGhosts...), streamIdGhosts...) {
+			key := "ghost." + g.name
+			c.heapGet(st, key, g.sort)
+			st.heap[key] = c.freshHeap(st.hsort[key])
+		}
+	case l.streamId != "":
+		for _, g := range streamIdGhosts {
+			key := "ghost." + g.name
+			h := c.heapGet(st, key, g.sort)
+			nv := c.fresh("g"+g.name, g.sort)
+			st.heap[key] = c.name("hs", "(Array Int "+g.sort+")", fmt.Sprintf("(store %s %s %s)", h, l.streamId, nv))
+		}
 	case l.stream != "":
 		for _, g := range streamGhosts {
 			key := "ghost." + g.name
